@@ -1040,6 +1040,43 @@ class Interp:
                         if (c.ty or '').startswith('&mut') and isinstance(c.v, Ref):
                             p0 = c.v.lv.path[0] if c.v.lv.path else None
                             note(c.v.lv.cell, p0[1] if p0 and p0[0] == 'f' else None)
+                        # a closure (called here by `&mut` or by value) writes through the `&mut` references it captured: the captured locals are
+                        # loop-carried as well (a memo kept in a captured variable must not look freshly initialised in every iteration)
+                        try:
+                            cv = read_lv(c.v.lv) if isinstance(c.v, Ref) else c.v
+                        except AnalysisIncomplete:
+                            cv = None
+                        if isinstance(cv, St) and isinstance(cv.adt, str) and cv.adt.startswith('closure:'):
+                            for fv in cv.fields.values():
+                                if isinstance(fv, Ref) and fv.mut:
+                                    q0 = fv.lv.path[0] if fv.lv.path else None
+                                    note(fv.lv.cell, q0[1] if q0 and q0[0] == 'f' else None)
+        # closures called in the loop (their `&mut self` temporary is created inside the loop, so the argument cell is still empty here: look at
+        # the place the temporary borrows): the locals they captured by `&mut` are written by the loop as well
+        for x in L:
+            t = cfg.blocks[x]['term']
+            if t['k'] != 'call':
+                continue
+            for a in t['args']:
+                if a['k'] not in ('copy', 'move') or a['place']['p']:
+                    continue
+                cands = [st.cells[a['place']['l']].v]
+                for P in temps.get(a['place']['l'], []):
+                    try:
+                        cands.append(root_of(P).v)
+                    except (IndexError, KeyError):
+                        pass
+                for cv in cands:
+                    if isinstance(cv, Ref):
+                        try:
+                            cv = read_lv(cv.lv)
+                        except AnalysisIncomplete:
+                            cv = None
+                    if isinstance(cv, St) and isinstance(cv.adt, str) and cv.adt.startswith('closure:'):
+                        for fv in cv.fields.values():
+                            if isinstance(fv, Ref) and fv.mut:
+                                q0 = fv.lv.path[0] if fv.lv.path else None
+                                note(fv.lv.cell, q0[1] if q0 and q0[0] == 'f' else None)
         for cid, (cell, fields) in partial.items():
             if cid in roots or cell.v is None:
                 continue
@@ -1434,6 +1471,8 @@ class Interp:
             r = RF.atom(nf.app_atom(base.lower(), frozen(a), frozen(b)))
             return tup(r, FALSE) if op.endswith('WithOverflow') else r
         is_int = lty in SCALAR_INT
+        if nf.CANCEL_LOG is not None and not is_int and base in ('Add', 'Sub'):
+            nf.log_cancel(a2, b2, base == 'Sub')
         if base == 'Add':
             r = a2 + b2
         elif base == 'Sub':
